@@ -167,6 +167,10 @@ func c38Round(c *core.Ctx, work string, idx int) {
 		f()
 	}
 	var closing, closed, paused atomic.Bool
+	// DropAll's documentation excludes concurrent reads ("resilient to concurrent writes, but not to
+	// reads ... otherwise they may result in panics"), so readers hold this lock shared and DropAll
+	// takes it exclusively; writers, batches and every other maintenance call keep running.
+	var dropAllMu sync.RWMutex
 	// writers
 	for g := 0; g < 6; g++ {
 		wwg.Add(1)
@@ -219,6 +223,8 @@ func c38Round(c *core.Ctx, work string, idx int) {
 				default:
 				}
 				call("View", func() {
+					dropAllMu.RLock()
+					defer dropAllMu.RUnlock()
 					_ = db.View(func(txn *badger.Txn) error {
 						if rr.Intn(2) == 0 {
 							if it, err := txn.Get(keys[rr.Intn(len(keys))]); err == nil {
@@ -280,7 +286,7 @@ func c38Round(c *core.Ctx, work string, idx int) {
 				call("DropPrefix", func() { k := keys[rr.Intn(len(keys))]; _ = db.DropPrefix(k[:1]) })
 			case 3:
 				if rr.Intn(3) == 0 {
-					call("DropAll", func() { _ = db.DropAll() })
+					call("DropAll", func() { dropAllMu.Lock(); defer dropAllMu.Unlock(); _ = db.DropAll() })
 				}
 			case 4:
 				call("Flatten", func() { _ = db.Flatten(2) })
